@@ -1065,7 +1065,11 @@ pub fn recvlimits(trace: &[Value]) -> Vec<Value> {
                 }
             }
         }
+        // unread application datagrams held against the configured datagram receive buffer
+        let side_cfg = &trace[0]["cfgx"][if n == 0 { "server" } else { "client" }];
+        let dgcap = side_cfg["dgram_recv_buf"].as_i64().filter(|x| *x >= 0).unwrap_or(1 << 28).min(1 << 28);
         out.push(json!({"ev":"Acct","side":side_of(n),"kind":ev,"dr":cap(&st["dr"]).min(1 << 28),"rw":rw,"rwmax":*m,
+            "dgrb":cap(&p["dgrb"]).min(1 << 28),"dgcap":dgcap,
             "debt":cap(&st["debt"]).min(1 << 28),"unread":unread,"worst":worst_stream,
             "srw":cap(&p["streams"].get("srw").cloned().unwrap_or(json!(1 << 28))).min(1 << 28),"credits":credits}));
     }
